@@ -41,6 +41,7 @@ ContBox(cont, stroke, sw, k, ws, tr) ==
     [] cont = "rect"    -> ShapeBox(RectBox, stroke, sw, k, ws, tr)
     [] cont = "path"    -> ShapeBox(Union(PathBox, Path2Box), stroke, sw, k, ws, tr)
     [] cont = "subpath" -> ShapeBox(PathBox, stroke, sw, k, ws, tr)
+    [] cont = "subpath_open" -> ShapeBox(Path2Box, stroke, sw, k, ws, tr)        \* the second, open sub-path: its last segment reaches furthest
     \* group { rect (the stroke under test), path (always stroked red, width 2) }, the group carries scale(k)
     [] cont = "group"   -> Union(ShapeBox(RectBox, stroke, sw, k, ws, tr),
                                  ShapeBox(Union(PathBox, Path2Box), "red", R(2), k, ws, tr))
@@ -69,7 +70,7 @@ Init ==
           /\ arg = <<c, u, v, th0, <<R(0), R(1)>>, dir, TRUE>>
           /\ exp = ArcBox(c, u, v, th0, <<R(0), R(1)>>, dir, TRUE)
   \/ /\ kind = "cont"       \* shapes and containers: union of members, stroke growth only when painted
-     /\ \E cont \in {"rect", "path", "subpath", "group", "nested", "circle", "ellipse", "polyline", "polygon", "line", "ellipse_rot"}, stroke \in {"none", "unset", "red"},
+     /\ \E cont \in {"rect", "path", "subpath", "subpath_open", "group", "nested", "circle", "ellipse", "polyline", "polygon", "line", "ellipse_rot"}, stroke \in {"none", "unset", "red"},
            sw \in {R(3), Q(1, 2)}, k \in {R(1), R(2), Q(1, 2)}, ws \in BOOLEAN, tr \in BOOLEAN :
           /\ arg = <<cont, stroke, sw, k, ws, tr>>
           /\ exp = ContBox(cont, stroke, sw, k, ws, tr)
